@@ -81,7 +81,7 @@ def checkWork (c : ObjCfg) (h h' : SpecHalf) (silentWhenPaused : Bool) (o : Obj)
   if !sameAuth h.prev o then some .noSpontaneousChange
   else if silentWhenPaused && h.prev.paused && o.execs != h.prev.execs then some .pausedNodeIsSilent
   else if o.execs < h.prev.execs || o.execs > h'.asked then some .neverMoreThanAsked
-  else if c.kind == .other && (o.execs != h.prev.execs || o.stash != h.prev.stash) then some .noSpontaneousChange
+  else if c.kind == .other && o.execs != h.prev.execs then some .noSpontaneousChange
   else none
 
 /-- Checks on the side the event addresses (`h` = bookkeeping before, `h'` after). -/
@@ -100,7 +100,7 @@ def checkOwn (l : Layout) (c : ObjCfg) (h h' : SpecHalf) (e : Ev) (o : Obj) : Op
       if c.kind == .checkable && c.active && !h.prev.paused && o.execs != h.prev.execs + 1 then some .dueCheckRuns else none
   | .upd _ now =>
     if l == .pair && !h.sees && inGrace h.start now && o != h.prev then some .coldStartNoChange
-    else if o.execs != h.prev.execs || o.stash != h.prev.stash then some .noSpontaneousChange
+    else if o.execs != h.prev.execs then some .noSpontaneousChange
     else if !deltaOk h.prev o then some .oncePerChange
     else if !touched c && o != h.prev then some .noSpontaneousChange
     else if touched c && h'.mode == .alone && o.paused then some .aloneAllActive
